@@ -26,7 +26,7 @@ class C03(Prop):
     def plan(self, tier):
         p = super().plan(tier)
         if tier == "quick":
-            p["count"] = 150
+            p["count"] = 96          # ~55 exports per scenario, the real TLExport run dominates (~0.2 s each)
             p["budget_s"] = 170
         return p
 
